@@ -555,7 +555,7 @@ def GI(mode, layout, props, form="first", tier="quick", mem="light", timeout=180
                 "belongs to the %s, else None (with `first` this is an induction over the whole iteration)" % (mode, LAYOUTS[layout][3], what),
     }[form]
     HARNESSES.append(H(mod + name, props, tier=tier, mem=mem, timeout=timeout, kind={"whole": "H", "first": "H", "step": "S"}[form], layer="L3",
-                       replay="native", mode=mode, layout=layout,
+                       replay="native", mode=mode, layout=layout, probe_spec=probe_max,
                        vec_order=["entries", "kind", "kind", "probe", "probe"] if is_range else ["entries", "probe"],
                        decides=decides, functions=ITER_FUNCS[mode] + GLUE_FUNCS, stubs=GLUE_STUBS + (CONTRACT_STUBS if contract else []),
                        assumes=["iteration = first call + later calls (induction); contiguity of the in-range / prefixed entries follows from sortedness"]
@@ -962,7 +962,8 @@ def spec_from_vectors(h, vecs):
             kinds.append("UIE"[byte()])
         elif tok == "probe":
             pb = [byte() for _ in range(3)]
-            ln = usize()
+            ps = h.get("probe_spec", 2)
+            ln = (ps - 10) if ps >= 10 else usize()  # probe_spec >= 10: exact length, no symbolic length in the vector
             probes.append(_hexs(pb[:ln]))
     for j, pr in enumerate(probes):
         lines.append("probe%s %s" % ("" if j == 0 else "2", pr))
